@@ -250,7 +250,7 @@ func c17Decoders(c *run.C) {
 	fm := mon.NewMonitor()
 	var fd codec.Decoder
 	if useReader {
-		fd = cd.NewDecoder(&mon.ChunkReader{Data: probe, Sizes: sizes}, buf, fm.WithRefs())
+		fd = cd.NewDecoder(&mon.ChunkReader{Data: probe, Sizes: sizes, EOFWithData: len(probe)%2 == 1}, buf, fm.WithRefs())
 	} else {
 		fd = cd.NewBytesDecoder(probe, fm.WithRefs())
 	}
@@ -266,7 +266,7 @@ func c17Decoders(c *run.C) {
 	um := mon.NewMonitor()
 	var ud codec.Decoder
 	if useReader {
-		ud = cd.NewDecoder(&mon.ChunkReader{Data: all, Sizes: sizes}, buf, um.WithRefs())
+		ud = cd.NewDecoder(&mon.ChunkReader{Data: all, Sizes: sizes, EOFWithData: len(probe)%2 == 1}, buf, um.WithRefs())
 	} else {
 		ud = cd.NewBytesDecoder(all, um.WithRefs())
 	}
